@@ -122,6 +122,41 @@ Theorem check_is_iterated_step :
 Proof. exact check_S. Qed.
 Print Assumptions check_is_iterated_step.
 
+(* the call tree of a request as a relation (subcall = the calls check_depth_bound lists, made
+   only when the depth test and the cycle test pass): along every path from the top-level call
+   the depth stays within the limit and within the length of the visited path, the visited path
+   has no repetition, and in a closed universe it stays inside the universe — at most |U| nested
+   calls, whatever the depth limit *)
+Theorem check_call_depth_invariant :
+  forall m conds store maxdepth o r c,
+    reachable m conds store maxdepth (O, [], (o, r)) c ->
+    (fst (fst c) <= maxdepth)%nat /\
+    (fst (fst c) <= length (snd (fst c)))%nat /\
+    NoDup (snd (fst c)).
+Proof. exact reachable_call_invariant. Qed.
+Print Assumptions check_call_depth_invariant.
+
+Theorem check_call_nesting_bound :
+  forall m conds store maxdepth U o r c,
+    universe_closed m conds store U = true -> amem (o, r) U = true ->
+    reachable m conds store maxdepth (O, [], (o, r)) c ->
+    incl (snd c :: snd (fst c)) U /\ (length (snd (fst c)) <= length U)%nat.
+Proof. exact reachable_nesting_bound. Qed.
+Print Assumptions check_call_nesting_bound.
+
+(* non-vacuity: doc:1#viewer (= owner but not blocked) calls doc:1#blocked at the same depth,
+   which dispatches group:1#member one level deeper *)
+Example check_call_tree_example :
+  reachable f1_model [] f1_store 25 (O, [], (mk_obj 4 1, 4))
+            (1%nat, [(mk_obj 4 1, 3); (mk_obj 4 1, 4)], (mk_obj 3 1, 1)).
+Proof.
+  eapply reach_step; [eapply reach_step; [apply reach_refl|]|].
+  - apply (sc_computed f1_model [] f1_store 25 O [] (mk_obj 4 1) 4 (mk_obj 4 1, 3));
+      [discriminate | reflexivity | vm_compute; auto].
+  - apply (sc_dispatch f1_model [] f1_store 25 O [(mk_obj 4 1, 4)] (mk_obj 4 1) 3 (mk_obj 3 1, 1));
+      [discriminate | reflexivity | vm_compute; auto].
+Qed.
+
 (* sufficient fuel is irrelevant fuel: the model has ONE answer set per request *)
 Theorem check_fuel_irrelevant :
   forall m conds store subj pathx maxdepth (U : list atom),
